@@ -336,6 +336,10 @@ func (w *World) goBaseType(s *Spec) (typ string, nillable bool) {
 		return "[]" + et, true
 	case "object":
 		if len(s.Props) == 0 && len(s.AnyOf) == 0 && len(s.AllOf) == 0 {
+			if s.AddPropsSpec != nil {
+				vt, _ := w.goBaseType(s.AddPropsSpec)
+				return "map[string]" + vt, true
+			}
 			return "map[string]interface{}", true
 		}
 		return "NAMED", false
@@ -358,6 +362,8 @@ func typeMatches(want, got string) bool {
 		}
 	case strings.HasPrefix(want, "[]") && strings.HasPrefix(got, "[]"):
 		return typeMatches(want[2:], got[2:])
+	case strings.HasPrefix(want, "map[string]") && strings.HasPrefix(got, "map[string]"):
+		return typeMatches(want[len("map[string]"):], got[len("map[string]"):])
 	case strings.HasPrefix(want, "*") && strings.HasPrefix(got, "*"):
 		return typeMatches(want[1:], got[1:])
 	}
@@ -390,7 +396,7 @@ func (w *World) checkFieldType(fm *FileModel, p *Prop, F *Field, path string) []
 		if strings.HasPrefix(base, "[]") && strings.Contains(td.Type, "struct {") {
 			return []Issue{{Rule: "A-MAP", Construct: "array-of-objects definition declared with an anonymous element struct", Msg: fmt.Sprintf("%s: type %s (an array-of-objects definition) is declared with an anonymous element struct: the elements get no type of their own and therefore no unmarshaler, so their required/constraint checks are lost while the same array written inline keeps them", path, ft)}}
 		}
-		if !typeMatches(base, td.Type) && !(strings.HasPrefix(base, "map[string]") && strings.HasPrefix(td.Type, "map[string]")) {
+		if !typeMatches(base, td.Type) && !(strings.HasPrefix(base, "map[string]") && strings.HasPrefix(td.Type, "map[string]") && p.Spec.AddPropsSpec == nil) {
 			return []Issue{{Rule: "A-MAP", Construct: "declared type of " + specShape(p.Spec), Msg: fmt.Sprintf("%s: type %s is declared as %s, but the definition is a %s and must decode as %s", path, ft, td.Type, specShape(p.Spec), base)}}
 		}
 		base = ft
@@ -525,6 +531,13 @@ func (w *World) checkValue(fm *FileModel, s *Spec, S *Struct, F *Field, path str
 	}
 	// nested object / array of objects: recurse
 	switch {
+	case s.Kind == "object" && len(s.Props) == 0 && s.AddPropsSpec != nil && s.AddPropsSpec.Kind == "object" && len(s.AddPropsSpec.Props) > 0:
+		// a map whose values are objects of their own: the value type carries the value schema's checks
+		vt := strings.TrimPrefix(fm.Underlying(ft), "map[string]")
+		vt, _ = stripPtr(vt)
+		if fm.Structs[vt] != nil {
+			out = append(out, w.CheckObject(fm, s.AddPropsSpec, vt, path+"{}")...)
+		}
 	case s.Kind == "object" && (len(s.Props) > 0 || len(s.AllOf) > 0 || len(s.AnyOf) > 0):
 		out = append(out, w.CheckObject(fm, s, ft, path)...)
 	case s.Kind == "array":
@@ -805,6 +818,10 @@ func MergeAllOf(s *Spec) *Spec {
 				}
 				if p.Required {
 					ex.Required = true
+				}
+				// an object-valued property re-declared by a later branch: its nested properties (disjoint here) and their required flags join
+				if ex.Spec.Kind == "object" && p.Spec.Kind == "object" && len(p.Spec.Props) > 0 {
+					ex.Spec.Props = append(append([]*Prop{}, ex.Spec.Props...), p.Spec.Props...)
 				}
 				continue
 			}
